@@ -209,6 +209,75 @@ pub fn gen_scope(t: &mut Tape) -> ScopeCase {
     ScopeCase { prog, moved, fault, reused_names: reused }
 }
 
+/// C15/C16 border: the same program with runs of items that declare no GLOBAL symbol wrapped into selected
+/// `#if` arms (a selected arm assembles as if written in place, so nested declarations inside it keep the
+/// parent they would have in place, and references inside it resolve from the same scope chain).
+/// Arms never contain a global declaration, and an arm with a declaration extends to the next global one
+/// (the shapes of the listed C16 finding arm-global-then-outside-local).
+pub fn wrap_in_ifs(t: &mut Tape, prog: &Program) -> Option<String> {
+    let mut out = String::new();
+    let mut i = 0;
+    let mut wrapped = 0;
+    let is_global = |it: &Item| matches!(it, Item::Label { dots: 0, .. } | Item::Const { dots: 0, .. });
+    let mut plain = |out: &mut String, it: &Item, indent: bool| {
+        if indent {
+            out.push_str("    ");
+        }
+        out.push_str(&item_text(it));
+        out.push('\n');
+    };
+    while i < prog.items.len() {
+        if is_global(&prog.items[i]) {
+            plain(&mut out, &prog.items[i], false);
+            i += 1;
+            continue;
+        }
+        let mut j = i;
+        while j < prog.items.len() && !is_global(&prog.items[j]) {
+            j += 1;
+        }
+        // an arm covering a random non-empty part [a, b) of the run
+        let a = t.urange(i, j - 1);
+        let mut b = t.urange(a + 1, j);
+        // An arm that declares something must run up to the next global declaration: what follows a chain is
+        // declared before the arm is spliced in, so a later sibling/child outside the arm would not see the arm's
+        // declarations as its parent (same root cause as the listed C16 finding; kept out by construction).
+        if prog.items[a..b].iter().any(|it| matches!(it, Item::Label { .. } | Item::Const { .. })) {
+            b = j;
+        }
+        let wrap = t.chance(3, 4);
+        for k in i..a {
+            plain(&mut out, &prog.items[k], false);
+        }
+        if wrap {
+            let cond = *t.pick(&["true", "1 == 1", "!false", "2 > 1"]);
+            out.push_str(&format!("#if {}\n{{\n", cond));
+            for k in a..b {
+                plain(&mut out, &prog.items[k], true);
+            }
+            match t.draw(3) {
+                0 => out.push_str("}\n"),
+                1 => out.push_str("}\n#else\n{\n    #d32 0xdead\n    .zz_dead:\n}\n"),
+                _ => out.push_str("}\n#elif true\n{\n    .zz_dead = 1\n}\n"),
+            }
+            wrapped += 1;
+        } else {
+            for k in a..b {
+                plain(&mut out, &prog.items[k], false);
+            }
+        }
+        for k in b..j {
+            plain(&mut out, &prog.items[k], false);
+        }
+        i = j;
+    }
+    if wrapped > 0 {
+        Some(out)
+    } else {
+        None
+    }
+}
+
 impl Property for C15 {
     fn id(&self) -> &'static str {
         "C15"
@@ -218,12 +287,16 @@ impl Property for C15 {
          constant values are literals or other symbols + n in any declaration order) interleaved with `#d32 <reference>` items that name a declared symbol (also ones declared later) by a spelling \
          chosen from all valid ones (absolute dotted path, or k leading dots for any k up to the common prefix with the scope chain at the point of use), a quarter of the cases with one fault \
          (unknown name, skipped nesting level, duplicate declaration). Oracle = R-SCOPE + R-LAYOUT: the reference resolves each reference and gives bits and symbol table, or rejects. \
-         Metamorphic part: global address-free constants standing at scope-neutral positions are moved to the end/start of the file; the moved program must assemble to the same bits. \
+         Metamorphic part: global address-free constants standing at scope-neutral positions are moved to the end/start of the file; the moved program must assemble to the same bits; \
+         and runs of items that declare no global symbol are wrapped into selected #if / #else / #elif arms (dead arms hold decoys), which must give the same bits and symbol table. \
          Non-trivial = a name is declared under >= 2 parents and the case has >= 3 references; distinct by hash of the source."
             .to_string()
     }
     fn tape_len(&self, _t: Tier) -> usize {
         300
+    }
+    fn fuzz_runs(&self, _tier: Tier) -> u64 {
+        40_000
     }
     fn random_cases(&self, tier: Tier) -> u64 {
         tier.pick(60_000, 800_000)
@@ -253,6 +326,31 @@ impl Property for C15 {
             ctx.want_render = true;
             ctx.render(|| crate::props::c01::render_json(&case.prog, &model));
             return Verdict::fail(c, d);
+        }
+        if let RefResult::Ok(m) = &model {
+            if let Some(src3) = wrap_in_ifs(t, &case.prog) {
+                ctx.label("if-wrapped-variant");
+                let out3 = sut::assemble_src(&src3, &Opts::default());
+                ctx.evals += 1;
+                let same = match &out3 {
+                    sut::AsmOutcome::Ok(o3) => {
+                        let mut want: Vec<(String, num_bigint::BigInt)> = m.symbols.clone();
+                        let mut got: Vec<(String, num_bigint::BigInt)> = sut::parse_symbols(&o3.symbols);
+                        want.sort();
+                        got.sort();
+                        o3.bits == m.bits && want == got
+                    }
+                    _ => false,
+                };
+                if !same {
+                    ctx.want_render = true;
+                    ctx.render(|| json!({"base": src, "wrapped": src3}));
+                    return Verdict::fail(
+                        "declarations-inside-selected-if-arm-resolve-differently",
+                        format!("base: ok {} ; with runs of local declarations/references inside selected #if arms: {}", sut::bits_hex(&m.bits), out3.brief()),
+                    );
+                }
+            }
         }
         if let (Some(mv), RefResult::Ok(m)) = (&case.moved, &model) {
             ctx.label("moved-variant");
